@@ -409,6 +409,54 @@ pub fn run(ctx: &mut Ctx) -> (&'static str, String, bool) {
     if kinds != 73 {
         ctx.inconclusive(format!("the specification table lists {kinds} packet kinds, expected 73"));
     }
+    // ---- IS_BTN with a type-in caption: Text = NUL, caption, NUL, button text (InSim.txt, "TypeIn"). Encode direction
+    //      only: a caption is something the application sends, and decoding any text stops at the first NUL (C11) -----
+    {
+        let mut p = Part::new();
+        let lay = c.spec.packet("BTN");
+        let mut r = base_rng.fork(4545);
+        for (cap, txt) in [("Lap count", "Set laps"), ("x", ""), ("Enter a name please", "^1Name"), ("abc", "abcd"), ("abcd", "abc")] {
+            let o = GenOpts { text: TextMode::AsciiPlacement, max_list: Some(0), boundary: 0, hostile: false };
+            let mut fm = c.gen().packet(&mut r, lay, &o);
+            corpus::set(&mut fm, "Text", Val::T(format!("\0{cap}\0{txt}")));
+            corpus::set(&mut fm, "TypeIn", Val::U(1 + r.below(96)));
+            p.evaluations += 1;
+            let typed = match guarded(|| bind::from_fields(&c.spec, lay, &fm)) {
+                Ok(Ok(t)) => t,
+                _ => {
+                    p.count("binding_gaps", 1);
+                    continue;
+                },
+            };
+            for compressed in MODES {
+                let img = c.spec.encode(lay, &fm, compressed, &ascii_text_enc);
+                if img.representable.is_err() {
+                    continue;
+                }
+                p.distinct(&(compressed, &img.frame));
+                match real_encode(&typed, compressed) {
+                    Enc::Ok(b) if b == img.frame => {},
+                    other => p.violation(
+                        "C02/BTN/Text/caption-encode",
+                        format!(
+                            "BTN {} with caption {:?} and text {:?}: encoder gives {} expected {}",
+                            mode_name(compressed),
+                            cap,
+                            txt,
+                            match &other {
+                                Enc::Ok(b) => hex(b),
+                                Enc::Err(e) => format!("error {e}"),
+                                Enc::Panic(e) => format!("panic {e}"),
+                            },
+                            hex(&img.frame)
+                        ),
+                        json!({"caption": cap, "text": txt, "reference_frame": hex(&img.frame)}),
+                    ),
+                }
+            }
+        }
+        ctx.merge(p);
+    }
     ctx.assume("ref/insim_v9.spec is a faithful transcription of InSim.txt v9 and the InSim-Relay document (not available in the sandbox)");
     ctx.assume("text in C02 is ASCII shorter than its field (variable fields: length not a multiple of 4): placement only; terminators are C11's, tables C10's");
     (
